@@ -1,6 +1,532 @@
-"""Generators / sweeps for C14..C19 (CL03 blind issuance, proofs of knowledge, range proofs, keys)."""
-class _Todo:
-    LEVEL = "proof"; CL03 = True; RULE = "under construction"
+"""Generators / sweeps for C14..C19 (CL03 blind issuance, proofs of knowledge, range proofs, keys, masking)."""
+import os, json, itertools, math, hashlib
+from . import common as C
+from . import clj
+from .clj import zl, oz, il, oil
+
+def _p():
+    from . import props
+    return props
+def _q():
+    from . import props3
+    return props3
+
+def parse_draws(r):
+    out = []
+    if r.draws:
+        for d in r.draws[2:].split(","):
+            k, _, v = d.partition("=")
+            name, _, params = k.partition("(")
+            out.append((name, [int(x) for x in params.rstrip(")").split(";")] if params else [], int(v)))
+    return out
+
+def sha_int(s): return int.from_bytes(hashlib.sha256(s.encode()).digest(), "big")
+
+def complement(n, U): return [i for i in range(n) if i not in U]
+
+# ---------------------------------------------------------------------------------------------- flows
+def issue(S, x, msgs, U, trusted, label="triv:issue"):
+    """commitment to the hidden attributes, optional trusted-party commitment, ZKPoK.  Returns a dict or None."""
+    f = {"msgs": msgs, "U": U, "trusted": trusted}
+    r = S.run(["clcommit %s %s %s %s %s" % (x.suite, zl(x.pk), zl(x.bases), zl(msgs), il(U))], expect="ok", label=label)[0]
+    if r.status != "OK": return None
+    f["C"] = [r.z(0), r.z(1)]
+    f["Ct"] = None
+    if trusted:
+        r = S.run(["clcommitcpk %s %s %s %s" % (x.suite, zl(x.cpk), zl(msgs), il(U))], expect="ok", label=label)[0]
+        if r.status != "OK": return None
+        f["Ct"] = [r.z(0), r.z(1)]
+    r = S.run([zkgen_line(x, f)], expect="ok", label=label.replace("triv:", "") + ":zkgen")[0]
+    if r.status != "OK": return None
+    f["zk"] = r.json(0); f["zk_draws"] = parse_draws(r)
+    return f
+
+def zkgen_line(x, f):
+    return "clzkgen %s %s %s %s %s %s %s %s" % (x.suite, zl(f["msgs"]), zl(f["C"]), oz(f["Ct"]), zl(x.pk), zl(x.bases),
+                                              oz(x.cpk if f["Ct"] else None), il(f["U"]))
+def zkver_line(x, f, zk=None, C_=None, Ct="same", pk=None, bases=None, cpk="same", U=None):
+    Ct = f["Ct"] if Ct == "same" else Ct
+    cpk = (x.cpk if f["Ct"] else None) if cpk == "same" else cpk
+    return "clzkver %s %s %s %s %s %s %s %s" % (x.suite, clj.tok(zk or f["zk"]), zl(C_ or f["C"]), oz(Ct), zl(pk or x.pk),
+                                              zl(bases or x.bases), oz(cpk), il(f["U"] if U is None else U))
+def blindsign_line(x, f, zk=None, C_=None, Ct="same", pk=None, bases=None, U=None, revealed="same", ridx="same"):
+    n = len(f["msgs"]); Ux = f["U"] if U is None else U
+    rid = complement(n, f["U"]) if ridx == "same" else ridx
+    rev = [f["msgs"][i] for i in complement(n, f["U"])] if revealed == "same" else revealed
+    Ct = f["Ct"] if Ct == "same" else Ct
+    return "clblindsign %s %s %s %s %s %s %s %s %s %s %s" % (x.suite, zl(pk or x.pk), zl(x.sk), zl(bases or x.bases), clj.tok(zk or f["zk"]),
+                                                            oz(rev), zl(C_ or f["C"]), oz(Ct), oz(x.cpk if Ct else None), il(Ux), oil(rid))
+
+true_ = lambda r: r.status == "OK" and r.toks[0] == "1"
+def reject(r): return (r.status == "OK" and r.toks[0] == "0") or r.status in ("PANIC", "ERR")
+refused = lambda r: r.status in ("PANIC", "ERR")
+
+def leaf_edits(doc, rng, per_leaf=("+1", "-1", "0"), limit=None):
+    """[(label, mutated doc)] single-field perturbations of every integer leaf (+-1, zero) and swaps of neighbours"""
+    lv = clj.leaves(doc); out = []
+    idxs = list(range(len(lv)))
+    if limit and len(idxs) > limit: idxs = sorted(rng.sample(idxs, limit))
+    for k in idxs:
+        path, v = lv[k]
+        name = ".".join(str(p) for p in path if not isinstance(p, int) and p != "CL03")
+        for e in per_leaf:
+            nv = v + 1 if e == "+1" else v - 1 if e == "-1" else 0
+            if nv == v: continue
+            out.append((name, e, clj.set_leaf(doc, path, nv)))
+        if k + 1 < len(lv) and lv[k + 1][1] != v:
+            d2 = clj.set_leaf(clj.set_leaf(doc, path, lv[k + 1][1]), lv[k + 1][0], v)
+            out.append((name, "swap", d2))
+    return out
+
+def edit_label(prefix, name, e):
+    """known-finding classes are keyed by the label prefix before '|'"""
+    if name.endswith("randomness"): return "F9:unused-randomness-leaf|%s:%s%s" % (prefix, name, e)
+    return "%s:field-edit|%s%s" % (prefix, name, e)
+
+# ====================================================================================== C14
+class C14:
+    LEVEL = "proof"
+    CL03 = True
+    RULE = ("toy suite: n in 1..4 attributes and ALL non-empty hidden-position sets U, with and without a trusted-party commitment: commit, ZKPoK generate (production RNG, draws "
+            "replayed into the model: proofs equal integer for integer), verify_proof, blind_sign, unblind, verify_multiattr on the full vector; update_signature after changing a "
+            "revealed attribute verifies on the new vector and not on the old one; mismatches (commitment to other attributes, other U, other bases / pk, other or missing trusted "
+            "commitment) and +-1 / zero / swap on every integer of the serialized ZKPoK => verify_proof false and blind_sign refuses (panic); CL1024 sampled with a fixture modulus")
     @staticmethod
-    def generate(S, tier): return {}
-C14 = C15 = C16 = C17 = C18 = C19 = _Todo
+    def generate(S, tier):
+        P = _p(); Q = _q(); rng = S.rng
+        stats = {"flows": 0, "subsets": 0, "field_edits": 0, "mismatches": 0}
+        for suite, fx in Q.suites_for(tier):
+            ns = ([1, 2, 3] if tier == "quick" else [1, 2, 3, 4, 5]) if suite == "toy" else [2]
+            for n in ns:
+                x = Q.make_ctx(S, suite, n, use_fixture=fx)
+                if x is None: continue
+                N = x.pk[0]
+                subsets = list(Q.all_subsets(n, nonempty=True)) if suite == "toy" else [[1], [0, 1]]
+                for U in subsets:
+                    for trusted in ((False, True) if (len(U) <= 2 or tier != "quick") else (False,)):
+                        msgs = [Q.rmsg(rng) for _ in range(n)]
+                        f = issue(S, x, msgs, U, trusted, label="issue")
+                        if f is None: continue
+                        stats["flows"] += 1; stats["subsets"] += 1
+                        S.run([zkver_line(x, f)], expect=true_, label="verify_proof(generate_proof)")
+                        rb = S.run([blindsign_line(x, f)], expect="ok", label="blind_sign")[0]
+                        if rb.status != "OK": continue
+                        bs = [rb.z(0), rb.z(1), rb.z(2)]
+                        ru = S.run(["clunblind %s %s %s" % (suite, zl(bs), zl(f["C"]))], expect="ok", label="unblind")[0]
+                        sig = [ru.z(0), ru.z(1), ru.z(2)]
+                        S.run([Q.vline(x, msgs, sig)], expect=true_, label="verify(unblind(blind_sign))")
+                        # re-issuing after a revealed attribute changed
+                        rev_idx = complement(n, U)
+                        if rev_idx:
+                            m2 = list(msgs); m2[rev_idx[0]] = Q.rmsg(rng)
+                            r2 = S.run(["clupdate %s %s %s %s %s %s %s %s" % (suite, zl(bs), zl([m2[i] for i in rev_idx]), zl(f["C"]), zl(x.sk), zl(x.pk), zl(x.bases), il(rev_idx))],
+                                       expect="ok", label="update_signature")[0]
+                            if r2.status == "OK":
+                                ru2 = S.run(["clunblind %s %s %s" % (suite, zl([r2.z(0), r2.z(1), r2.z(2)]), zl(f["C"]))], expect="ok", label="unblind")[0]
+                                s2 = [ru2.z(0), ru2.z(1), ru2.z(2)]
+                                S.run([Q.vline(x, m2, s2)], expect=true_, label="verify(update):new-vector")
+                                S.run([Q.vline(x, msgs, s2)], expect=reject, label="verify(update):old-vector")
+                        # mismatches
+                        lines = []; labs = []
+                        def mm(kw, lab):
+                            lines.append(zkver_line(x, f, **kw)); labs.append("mismatch:" + lab)
+                            lines.append(blindsign_line(x, f, **{k: v for k, v in kw.items() if k != "cpk"})); labs.append("gate:" + lab)
+                        ro = S.run(["clcommit %s %s %s %s %s" % (suite, zl(x.pk), zl(x.bases), zl([m ^ 1 for m in msgs]), il(U))], expect="ok", label="triv:othercommit")[0]
+                        mm({"C_": [ro.z(0), ro.z(1)]}, "commitment-to-other-attributes")
+                        mm({"C_": [f["C"][0] * x.bases[0] % N, f["C"][1]]}, "commitment-shifted")
+                        others = [u for u in Q.all_subsets(n, nonempty=True) if u != U and len(u) == len(U)]
+                        if others: mm({"U": others[0]}, "other-U")
+                        if len(U) >= 2: mm({"U": U[::-1]}, "reordered-U")
+                        if n >= 2:
+                            b2 = list(x.bases); b2[U[0]] = x.bases[(U[0] + 1) % n] if x.bases[(U[0] + 1) % n] != x.bases[U[0]] else b2[U[0]] + 1
+                            mm({"bases": b2}, "other-bases")
+                        mm({"pk": [N, x.pk[2], x.pk[1]]}, "other-pk")
+                        if trusted:
+                            rt = S.run(["clcommitcpk %s %s %s %s" % (suite, zl(x.cpk), zl([m ^ 2 for m in msgs]), il(U))], expect="ok", label="triv:othercommit")[0]
+                            mm({"Ct": [rt.z(0), rt.z(1)]}, "other-trusted-commitment")
+                        stats["mismatches"] += len(lines)
+                        S.run(lines, expect=[reject if l.startswith("mismatch") else refused for l in labs], label=labs)
+                        # field-wise edits of the serialized proof
+                        if stats["field_edits"] < (400 if tier == "quick" else 6000) and suite == "toy":
+                            el = leaf_edits(f["zk"], rng, limit=(40 if tier == "quick" else None))
+                            lines = [zkver_line(x, f, zk=d) for _, _, d in el]
+                            labs = [edit_label("zkpok", nm, e) for nm, e, _ in el]
+                            stats["field_edits"] += len(lines)
+                            S.run(lines, expect=reject, label=labs)
+        return stats
+
+# ====================================================================================== C15
+def spokgen_line(x, sig, msgs, U):
+    return "clspokgen %s %s %s %s %s %s %s" % (x.suite, zl(sig), zl(x.cpk), zl(x.pk), zl(x.bases), zl(msgs), il(U))
+def spokver_line(x, doc, msgs, U, n=None, cpk=None, pk=None, bases=None, revealed=None):
+    n_ = len(msgs) if n is None else n
+    rev = [msgs[i] for i in range(len(msgs)) if i not in U] if revealed is None else revealed
+    return "clspokver %s %s %s %s %s %s %s %d" % (x.suite, clj.tok(doc), zl(cpk or x.cpk), zl(pk or x.pk), zl(bases or x.bases), zl(rev), il(U), n_)
+
+class C15:
+    LEVEL = "proof"
+    CL03 = True
+    RULE = ("toy suite: n in 1..4 attributes, ALL subsets U of hidden positions (none, some, all), commitment key over the issuer modulus: proof_gen with the production RNG "
+            "(draws replayed into the model: proofs equal integer for integer), proof_verify with the revealed attributes = true; single edits of revealed attributes, pk, bases, "
+            "commitment key, U, n and +-1 / zero / swap on every integer of the serialized proof => false (a refusal by panic counts); CL1024 sampled with a fixture modulus")
+    @staticmethod
+    def generate(S, tier):
+        P = _p(); Q = _q(); rng = S.rng
+        stats = {"proofs": 0, "field_edits": 0, "mismatches": 0}
+        for suite, fx in Q.suites_for(tier):
+            ns = ([1, 2, 3] if tier == "quick" else [1, 2, 3, 4, 5]) if suite == "toy" else [2]
+            for n in ns:
+                x = Q.make_ctx(S, suite, n, use_fixture=fx)
+                if x is None: continue
+                N = x.pk[0]
+                msgs = [Q.rmsg(rng) for _ in range(n)]
+                sig = Q.sign(S, x, msgs)
+                if sig is None: continue
+                subsets = list(Q.all_subsets(n)) if suite == "toy" else [[0], [0, 1]]
+                for U in subsets:
+                    r = S.run([spokgen_line(x, sig, msgs, U)], expect="ok", label="proof_gen")[0]
+                    if r.status != "OK": continue
+                    doc = r.json(0); stats["proofs"] += 1
+                    S.run([spokver_line(x, doc, msgs, U)], expect=true_, label="proof_verify(proof_gen)")
+                    lines = []; labs = []
+                    def mm(lab, **kw): lines.append(spokver_line(x, doc, msgs, U, **kw)); labs.append("mismatch:" + lab)
+                    rev = [msgs[i] for i in range(n) if i not in U]
+                    if rev:
+                        mm("revealed-attribute", revealed=[rev[0] ^ 1] + rev[1:])
+                        mm("revealed-dropped", revealed=rev[1:])
+                        if len(rev) >= 2 and rev[0] != rev[1]: mm("revealed-swapped", revealed=[rev[1], rev[0]] + rev[2:])
+                    mm("other-pk", pk=[N, x.pk[2], x.pk[1]])
+                    mm("other-pk-c", pk=[N, x.pk[1], x.pk[2] * x.pk[2] % N])
+                    if n >= 2:
+                        b2 = list(x.bases); b2[0], b2[1] = b2[1], b2[0]; mm("other-bases", bases=b2)
+                    mm("other-commitment-key-h", cpk=[x.cpk[0], x.cpk[1] * x.cpk[1] % N] + x.cpk[2:])
+                    mm("other-commitment-key-g0", cpk=x.cpk[:2] + [x.cpk[2] * x.cpk[1] % N] + x.cpk[3:])
+                    others = [u for u in Q.all_subsets(n) if u != U and len(u) == len(U)]
+                    if others:
+                        U2 = others[0]
+                        lines.append(spokver_line(x, doc, msgs, U2, revealed=rev)); labs.append("mismatch:other-U")
+                    if len(U) < n:
+                        U3 = sorted(U + [complement(n, U)[0]])
+                        lines.append(spokver_line(x, doc, msgs, U3)); labs.append("mismatch:larger-U")
+                    mm("other-n+1", n=n + 1);
+                    if n > 1: mm("other-n-1", n=n - 1)
+                    stats["mismatches"] += len(lines)
+                    S.run(lines, expect=reject, label=labs)
+                    if stats["field_edits"] < (400 if tier == "quick" else 8000) and suite == "toy":
+                        el = leaf_edits(doc, rng, limit=(40 if tier == "quick" else None))
+                        stats["field_edits"] += len(el)
+                        S.run([spokver_line(x, d, msgs, U) for _, _, d in el], expect=reject, label=[edit_label("spok", nm, e) for nm, e, _ in el])
+        return stats
+
+# ====================================================================================== C16
+BT, BL, BS = 128, 40, 40
+def range_T(a, b): return 2 * (BT + BL + 1) + (b - a).bit_length()
+
+def forge_transplant(honest, g, h, n, a, b, y, ry, rng):
+    """F8: keep the two square proofs of an honest proof, choose E_?_1 freely so that E_?_2 = E_? / E_?_1 commits to a small
+    value, and make fresh larger-interval proofs for that small value: a 'proof' for a commitment to y, any y."""
+    T = range_T(a, b)
+    sq = math.isqrt(b - a)
+    aa = (1 << T) * a - (1 << (BL + BT + T // 2 + 1)) * sq
+    bb = (1 << T) * b + (1 << (BL + BT + T // 2 + 1)) * sq
+    com = lambda x, r: pow(g, x, n) * pow(h, r, n) % n
+    Ey = com(y, ry); yp = (1 << T) * y; rp = (1 << T) * ry
+    x2 = 1
+    za = yp - aa - x2; zb = bb - yp - x2
+    ra1, rb1 = rng.getrandbits(100), rng.getrandbits(100)
+    ra2 = rp - ra1; rb2 = -rp - rb1
+    def li(x2_, r2_):
+        while True:
+            w = rng.randrange((1 << T) * (1 << (BT + BL)) * b); nu = rng.randrange((1 << T) * (1 << (BT + BL + BS)) * n)
+            omega = com(w, nu); Cc = sha_int(str(omega)); c = Cc % (1 << BT)
+            d1 = w + x2_ * c; d2 = nu + r2_ * c
+            if c * b <= d1 <= (1 << T) * ((1 << (BT + BL)) * b - 1): return {"C": Cc, "D_1": d1, "D_2": d2}
+    I = lambda v: {"radix": 10, "value": str(v)}
+    doc = json.loads(json.dumps(honest))
+    doc["E"] = I(Ey); doc["E_prime"] = I(pow(Ey, 1 << T, n))
+    pt = doc["proof_of_tolerance"]
+    pt["E_a_1"] = I(com(za, ra1)); pt["E_a_2"] = I(com(x2, ra2)); pt["E_b_1"] = I(com(zb, rb1)); pt["E_b_2"] = I(com(x2, rb2))
+    for k, v in li(x2, ra2).items(): pt["proof_large_i_a"][k] = I(v)
+    for k, v in li(x2, rb2).items(): pt["proof_large_i_b"][k] = I(v)
+    return doc
+
+class C16:
+    LEVEL = "proof"
+    CL03 = True
+    RULE = ("Boudot range proofs over toy and fixture moduli with bases (g_0, h) of a commitment key: intervals [a, b] with b - a in {1, 2, 3, 2^k, 2^256 - 1, ...} (a >= 0 and a < 0 < b), "
+            "x in {a, a+1, mid, b-1, b, random}: prove with the production RNG (draws replayed into the model: proofs equal integer for integer), verify = true; x outside [a, b]: the "
+            "honest prover panics or its proof is rejected; other bounds / bases / modulus, +-1 / zero / swap on every integer of the proof, and the transplant forgery (honest square "
+            "proofs kept, E_?_1 chosen freely, commitment to b + 1000, a - 1, a - 2^k) => rejected")
+    @staticmethod
+    def generate(S, tier):
+        P = _p(); Q = _q(); rng = S.rng
+        stats = {"proofs": 0, "out_of_range": 0, "field_edits": 0, "transplants": 0, "widths": []}
+        for suite, fx in Q.suites_for(tier):
+            x = Q.make_ctx(S, suite, 1, use_fixture=fx)
+            if x is None: continue
+            n = x.cpk[0]; h = x.cpk[1]; g = x.cpk[2]
+            com = lambda v, r: pow(g, v, n) * pow(h, r, n) % n
+            widths = [1, 2, 3, 4, 255, 256, 2**16 - 1, 2**64, 2**256 - 1] if suite == "toy" else [3, 2**256 - 1]
+            if tier != "quick" and suite == "toy": widths += [5, 7, 2**32 + 1, 2**128, 2**300]
+            stats["widths"] = [w.bit_length() for w in widths]
+            def prove_line(v, r, a, b): return "clrpprove %s %d %s %d %d %d %d %d" % (suite, v, zl([com(v, r) if v >= 0 else com(v % (n * n), r), r]), g, h, n, a, b)
+            def ver_line(doc, a, b, g_=None, h_=None, n_=None): return "clrpverify %s %s %d %d %d %d %d" % (suite, clj.tok(doc), g_ or g, h_ or h, n_ or n, a, b)
+            for w in widths:
+                for a in ([0, 7, 2**255] if w > 3 else [0, 5]) + ([-(w // 2) - 1] if w >= 4 else []):
+                    b = a + w
+                    if b <= 0: continue
+                    xs = sorted({a, a + 1, (a + b) // 2, b - 1, b, rng.randrange(a, b + 1)})
+                    if tier == "quick" and w > 4: xs = [a, (a + b) // 2, b]
+                    for v in xs:
+                        r = rng.getrandbits(x.P["ln"]) | (1 << (x.P["ln"] - 1))
+                        E = pow(g, v, n) * pow(h, r, n) % n if v >= 0 else pow(pow(g, -1, n), -v, n) * pow(h, r, n) % n
+                        line = "clrpprove %s %d %s %d %d %d %d %d" % (suite, v, zl([E, r]), g, h, n, a, b)
+                        rp = S.run([line], expect="ok", label="prove")[0]
+                        if rp.status != "OK": continue
+                        doc = rp.json(0); stats["proofs"] += 1
+                        S.run([ver_line(doc, a, b)], expect=true_, label="verify(prove)")
+                        if stats["proofs"] % 7 == 1:
+                            lines = [ver_line(doc, a, b + 1), ver_line(doc, a - 1, b), ver_line(doc, a + 1, b) if b - a > 1 else ver_line(doc, a, b + 2),
+                                     ver_line(doc, a, b, g_=h, h_=g), ver_line(doc, a, b, g_=g * g % n), ver_line(doc, a, b, h_=h * g % n), ver_line(doc, a, b, n_=n + 2)]
+                            S.run(lines, expect=reject, label=["mismatch:bounds", "mismatch:bounds", "mismatch:bounds", "mismatch:bases", "mismatch:bases", "mismatch:bases", "mismatch:modulus"])
+                        if stats["field_edits"] < (300 if tier == "quick" else 5000) and suite == "toy" and stats["proofs"] % 5 == 1:
+                            el = leaf_edits(doc, rng, limit=(24 if tier == "quick" else None))
+                            stats["field_edits"] += len(el)
+                            S.run([ver_line(d, a, b) for _, _, d in el], expect=reject, label=[edit_label("range", nm, e) for nm, e, _ in el])
+                        # transplant forgeries built from this honest proof
+                        if a >= 0 and stats["transplants"] < (12 if tier == "quick" else 200) and stats["proofs"] % 3 == 1:
+                            for y in (b + 1000, b + 1, a - 1, a - 2**40, rng.getrandbits(300)):
+                                if a <= y <= b or y < 0: continue
+                                fd = forge_transplant(doc, g, h, n, a, b, y, rng.getrandbits(200), rng)
+                                stats["transplants"] += 1
+                                S.run([ver_line(fd, a, b)], expect=reject, label="F8:transplant-onto-out-of-range-commitment|y-b=%d" % (y - b))
+                    # honest prover outside the interval
+                    for v in (a - 1, b + 1, a - 2**20, b + 2**70):
+                        r = rng.getrandbits(x.P["ln"]) | (1 << (x.P["ln"] - 1))
+                        E = pow(g, v, n) * pow(h, r, n) % n if v >= 0 else pow(pow(g, -1, n), -v, n) * pow(h, r, n) % n
+                        rp = S.run(["clrpprove %s %d %s %d %d %d %d %d" % (suite, v, zl([E, r]), g, h, n, a, b)], label="prove-out-of-range")[0]
+                        stats["out_of_range"] += 1
+                        if rp.status == "OK":
+                            S.run([ver_line(rp.json(0), a, b)], expect=reject, label="out-of-range-proof-rejected")
+                        elif rp.status not in ("PANIC",):
+                            P.fail(S, "out-of-range-prover", "unexpected outcome " + rp.status, [str(v)])
+            # intervals with a non-positive upper bound (F13)
+            for (a, b, v) in ((-10, -5, -7), (-1, 0, 0)):
+                r = rng.getrandbits(100)
+                E = pow(pow(g, -1, n), -v, n) * pow(h, r, n) % n
+                S.run(["clrpprove %s %d %s %d %d %d %d %d" % (suite, v, zl([E, r]), g, h, n, a, b)], expect="ok", label="F13:prove-panics-for-nonpositive-rmax|[%d,%d]" % (a, b))
+        return stats
+
+# ====================================================================================== C17
+def commitment_objects(doc, path=()):
+    """every {value, randomness}-shaped object in a proof document"""
+    out = []
+    if isinstance(doc, dict):
+        if set(doc.keys()) == {"value", "randomness"} and clj.is_int(doc["value"]) and clj.is_int(doc["randomness"]):
+            out.append((path, int(doc["value"]["value"], doc["value"]["radix"]), int(doc["randomness"]["value"], doc["randomness"]["radix"])))
+        else:
+            for k, v in doc.items(): out += commitment_objects(v, path + (k,))
+    elif isinstance(doc, list):
+        for i, v in enumerate(doc): out += commitment_objects(v, path + (i,))
+    return out
+
+def opening_attacks(S, doc, N, pairs, secrets, v_sig, candidates, what):
+    """the property's own attacker: recompute embedded commitments from fields of the proof"""
+    P = _p(); n_checked = 0
+    for path, val, rnd in commitment_objects(doc):
+        name = ".".join(str(p) for p in path if p != "CL03")
+        for (gname, g, h) in pairs:
+            try: hr = pow(h, rnd, N)
+            except ValueError: continue
+            for (sname, xsec) in secrets:
+                n_checked += 1
+                if val % N == pow(g, xsec, N) * hr % N:
+                    P.fail(S, "F9:opening-in-proof|%s:%s" % (what, name), "value = %s^%s * h^randomness: the proof carries the opening of a commitment to %s" % (gname, sname, sname), [name])
+            # dictionary attack with two candidate attribute values
+            hits = [c for c in candidates if val % N == pow(g, c, N) * hr % N]
+            if len(hits) == 1:
+                P.fail(S, "F9:dictionary-attack|%s:%s" % (what, name), "a guessed attribute value is confirmed from the proof alone", [name])
+            if v_sig is not None:
+                try:
+                    if val * pow(g, -rnd, N) % N == v_sig % N:
+                        P.fail(S, "F9:v-recovered|%s:%s" % (what, name), "value * %s^(-randomness) = v: the signature component v is recovered" % gname, [name])
+                except ValueError: pass
+    return n_checked
+
+class C17:
+    LEVEL = "proof"
+    CL03 = True
+    RULE = ("toy suite (and CL1024 with a fixture modulus): honest issuance proofs and signature proofs for all hidden-position subsets of n <= 3 attributes; the property's attacker: every "
+            "(value, randomness)-shaped object of the serialized proof x every public base pair (a_i, b), (g_i, h) x every secret the prover holds (hidden m_i, e, v, w, r): "
+            "value = g^x h^randomness, value * g^(-randomness) = v, and a two-candidate dictionary test must all fail")
+    @staticmethod
+    def generate(S, tier):
+        P = _p(); Q = _q(); rng = S.rng
+        stats = {"proofs": 0, "recomputations": 0}
+        for suite, fx in Q.suites_for(tier):
+            for n in ([2, 3] if suite == "toy" else [2]):
+                x = Q.make_ctx(S, suite, n, use_fixture=fx)
+                if x is None: continue
+                N = x.pk[0]; b = x.pk[1]
+                pairs = [("a_%d" % i, x.bases[i], b) for i in range(n)] + [("g_%d" % i, x.cpk[2 + i], x.cpk[1]) for i in range(n)]
+                msgs = [Q.rmsg(rng) for _ in range(n)]
+                sig = Q.sign(S, x, msgs)
+                subsets = list(Q.all_subsets(n, nonempty=True)) if (suite == "toy" and tier != "quick") else [[0], list(range(n))]
+                for U in subsets:
+                    f = issue(S, x, msgs, U, False, label="triv:issue")
+                    if f:
+                        secrets = [("m_%d" % i, msgs[i]) for i in U] + [("r", f["C"][1])]
+                        cands = [msgs[U[0]], msgs[U[0]] ^ 1]
+                        stats["recomputations"] += opening_attacks(S, f["zk"], N, pairs, secrets, None, cands, "zkpok")
+                        stats["proofs"] += 1
+                    r = S.run([spokgen_line(x, sig, msgs, U)], expect="ok", label="triv:proof_gen")[0]
+                    if r.status == "OK":
+                        doc = r.json(0); dr = parse_draws(r)
+                        secrets = [("m_%d" % i, msgs[i]) for i in U] + [("e", sig[0]), ("v", sig[2])] + [("draw_%d" % k, v) for k, (kd, pr, v) in enumerate(dr) if kd == "bits" and pr == [x.P["ln"]]][:6]
+                        cands = [msgs[U[0]], msgs[U[0]] ^ 1]
+                        stats["recomputations"] += opening_attacks(S, doc, N, pairs, secrets, sig[2], cands, "spok")
+                        stats["proofs"] += 1
+        return stats
+
+# ====================================================================================== C18
+class C18:
+    LEVEL = "proof"
+    CL03 = True
+    RULE = ("toy suite: freshly generated key pairs, bases and commitment keys (own modulus and issuer modulus) with the production RNG, every draw replayed into the model (identical keys, "
+            "including the safe-prime search decisions); independent structural check in Python: N = p q, p != q, p, q, (p-1)/2, (q-1)/2 probable primes of SECPARAM+1 bits, every base "
+            "b, c, a_i, h, g_i in (1, N), coprime to N, Jacobi symbol +1 modulo p and q; byte and JSON codecs of pk / sk / signature; random_bits(n) has bit n-1 set and rand_int(a, b) in "
+            "[a, b]; CL1024 in the thorough tier")
+    @staticmethod
+    def generate(S, tier):
+        P = _p(); Q = _q(); rng = S.rng
+        stats = {"keys": 0, "bases_checked": 0, "random_calls": 0}
+        plan = [("toy", 6 if tier == "quick" else 60)] + ([("cl1024", 1)] if tier != "quick" else [])
+        for suite, nkeys in plan:
+            sp = Q.SUITE_P[suite]["SECPARAM"]
+            for k in range(nkeys):
+                r = S.run(["clkeygen %s" % suite], expect="ok", label="keygen")[0]
+                if r.status != "OK": continue
+                N, b, c, p, q = [r.z(i) for i in range(5)]
+                stats["keys"] += 1
+                bad = []
+                if N != p * q: bad.append("N != p*q")
+                if p == q: bad.append("p == q")
+                for nm, v in (("p", p), ("q", q), ("(p-1)/2", (p - 1) // 2), ("(q-1)/2", (q - 1) // 2)):
+                    if not Q.is_probable_prime(v): bad.append(nm + " not prime")
+                if p.bit_length() != sp + 1 or q.bit_length() != sp + 1: bad.append("|p|,|q| = %d,%d" % (p.bit_length(), q.bit_length()))
+                nb = 1 + k % 3
+                rb = S.run(["clbases %s %d %d" % (suite, N, nb)], expect="ok", label="bases")[0]
+                rc = S.run(["clcpk %s %d %d" % (suite, N, nb)], expect="ok", label="cpk(issuer modulus)")[0]
+                els = [("b", b), ("c", c)] + [("a_%d" % i, v) for i, v in enumerate(rb.zl(0))] + [("h", rc.zl(0)[1])] + [("g_%d" % i, v) for i, v in enumerate(rc.zl(0)[2:])]
+                for nm, v in els:
+                    stats["bases_checked"] += 1
+                    if not (1 < v < N): bad.append(nm + " outside (1, N)")
+                    if math.gcd(v, N) != 1: bad.append(nm + " not coprime to N")
+                    if Q.jacobi(v, p) != 1 or Q.jacobi(v, q) != 1: bad.append(nm + " is not a quadratic residue")
+                if bad: P.fail(S, "key-structure", "; ".join(bad[:6]), [str(N)])
+                # codecs
+                rk = S.run(["clpkcodec %s %s" % (suite, zl([N, b, c]))], expect="ok", label="pk-codec")[0]
+                if rk.status == "OK" and ([rk.z(1), rk.z(2), rk.z(3)] != [N, b, c] or rk.toks[4] != "1"): P.fail(S, "pk-codec", "public key changed by a codec", [str(N)])
+                rs = S.run(["clskcodec %s %s" % (suite, zl([p, q]))], expect="ok", label="sk-codec")[0]
+                if rs.status == "OK" and ([rs.z(1), rs.z(2)] != [p, q] or rs.toks[3] != "1"): P.fail(S, "sk-codec", "secret key changed by a codec", [str(N)])
+                if k < 2 and suite == "toy":
+                    # a commitment key with its own modulus
+                    ro = S.run(["clcpk %s N 2" % suite], expect="ok", label="cpk(own modulus)")[0]
+                    if ro.status == "OK":
+                        N2, h2 = ro.zl(0)[0], ro.zl(0)[1]
+                        for v in [h2] + ro.zl(0)[2:]:
+                            if not (1 < v < N2) or math.gcd(v, N2) != 1: P.fail(S, "cpk-structure", "commitment-key element outside (1, N) or not coprime", [str(N2)])
+            # malformed key octets: only lengths 3*ln + k*ln are accepted, anything else is refused (panic)
+            if suite == "toy":
+                w = Q.SUITE_P[suite]["ln"]
+                for ln_ in (0, 1, w, 3 * w - 1, 3 * w, 3 * w + 1, 4 * w):
+                    S.run(["clpkfrombytes %s %s" % (suite, C.tb(bytes([7]) * ln_))], label="pk-from-bytes-len")
+        for nbits in [1, 2, 8, 63, 64, 65, 256, 258, 384, 1024] + ([2048, 3072] if tier != "quick" else []):
+            for _ in range(3 if tier == "quick" else 30):
+                r = S.run(["clrandbits %d" % nbits], expect="ok", label="random_bits")[0]
+                stats["random_calls"] += 1
+                if r.status == "OK" and r.z(0).bit_length() != nbits: P.fail(S, "random_bits", "random_bits(%d) returned a %d-bit value" % (nbits, r.z(0).bit_length()), [])
+        for (a, b) in [(0, 0), (0, 1), (-5, 5), (1, 2**64), (-2**100, -2**100 + 3), (2**255, 2**256)]:
+            for _ in range(4 if tier == "quick" else 40):
+                r = S.run(["clrandint %d %d" % (a, b)], expect="ok", label="rand_int")[0]
+                stats["random_calls"] += 1
+                if r.status == "OK" and not (a <= r.z(0) <= b): P.fail(S, "rand_int", "rand_int(%d, %d) = %d" % (a, b, r.z(0)), [])
+        return stats
+
+# ====================================================================================== C19
+RESPONSE_KEYS = {"s1", "s2", "s_1", "s_2", "s_3", "s_4", "s_5", "s_6", "s_7", "s_8", "s_9", "d", "d_1", "d_2", "D_1", "D_2"}
+SIGMA_RESPONSE_KEYS = {"s1", "s2", "s_1", "s_2", "s_3", "s_4", "s_5", "s_6", "s_7", "s_8", "s_9"}
+
+def masking_attack(S, doc, challenges, secrets, what, sigma_only=True):
+    """every response leaf / every recomputable challenge / every ordered pair of responses against every secret"""
+    P = _p(); n = 0
+    resp = []
+    for path, v in clj.leaves(doc):
+        keys = [p for p in path if isinstance(p, str)]
+        if not keys: continue
+        k = keys[-1]
+        in_range_proof = any(p in ("range_proof_e", "range_proofs_commited_mi", "range_proofs_mi", "range_proof_r", "proof_of_tolerance") for p in keys)
+        if k in (SIGMA_RESPONSE_KEYS if sigma_only else RESPONSE_KEYS) and not in_range_proof or (k in ("d", "d_1", "d_2") and "proof_C_Ctrusted" in keys):
+            resp.append((".".join(str(p) for p in path if p != "CL03"), v))
+    B = 1 << 64
+    for name, s in resp:
+        for cname, c in challenges:
+            if c <= 0: continue
+            q = s // c
+            for sname, xs in secrets:
+                n += 1
+                if abs(q - xs) < B:
+                    P.fail(S, "F10:response-over-challenge-reveals-secret|%s:%s" % (what, name), "floor(%s / %s) - %s = %d" % (name, cname, sname, q - xs), [name])
+        for name2, s2 in resp:
+            if name2 == name or s2 <= 0: continue
+            q = s // s2
+            for sname, xs in secrets:
+                n += 1
+                if abs(q - xs) < B and xs > B:
+                    P.fail(S, "F10:ratio-of-responses-reveals-secret|%s:%s/%s" % (what, name, name2), "floor(%s / %s) - %s = %d" % (name, name2, sname, q - xs), [name])
+    return n, len(resp)
+
+class C19:
+    LEVEL = "proof"
+    CL03 = True
+    RULE = ("toy suite (and CL1024 with a fixture modulus): honest issuance proofs and signature proofs for all hidden-position subsets of n <= 3 attributes; the property's attacker: every "
+            "sigma-protocol response leaf s of the serialized proof x every Fiat-Shamir challenge recomputable from public data (and every ordered pair of responses s, s') x every secret "
+            "the prover holds (hidden m_i, e, s, v and every commitment randomness, read from the logged draws): |floor(s/c) - x| >= 2^64 and |floor(s/s') - x| >= 2^64; the bit length of "
+            "every blinding draw is compared with the model's request (draw-kind / parameter correspondence)")
+    @staticmethod
+    def generate(S, tier):
+        P = _p(); Q = _q(); rng = S.rng
+        stats = {"proofs": 0, "quotients": 0, "responses": 0}
+        for suite, fx in Q.suites_for(tier):
+            for n in ([1, 2, 3] if suite == "toy" else [2]):
+                x = Q.make_ctx(S, suite, n, use_fixture=fx)
+                if x is None: continue
+                N = x.pk[0]; b = x.pk[1]; ln = x.P["ln"]
+                msgs = [Q.rmsg(rng) for _ in range(n)]
+                sig = Q.sign(S, x, msgs)
+                subsets = list(Q.all_subsets(n, nonempty=True)) if (suite == "toy" and tier != "quick") else [[0], list(range(n))][: (2 if n > 1 else 1)]
+                for U in subsets:
+                    for trusted in (False, True):
+                        f = issue(S, x, msgs, U, trusted, label="triv:issue")
+                        if not f: continue
+                        zk = f["zk"]["CL03"]
+                        pm = zk["proof_commited_msgs"]
+                        chal = [("c(multi-secret)", sha_int("".join(str(x.bases[i]) for i in (U if n > 1 else [0])) + str(b) + str(f["C"][0]) + str(clj.get(pm, ("t",)))))]
+                        for k, pv in enumerate(zk["proofs_commited_mi"]):
+                            chal.append(("c(m_%d)" % U[k], sha_int(str(x.bases[U[k]]) + str(b) + str(clj.get(pv, ("commitment", "value"))) + str(clj.get(pv, ("value", "t"))))))
+                        pr = zk["proof_r"]
+                        chal.append(("c(r)", sha_int(str(x.bases[0]) + str(b) + str(clj.get(pr, ("commitment", "value"))) + str(clj.get(pr, ("value", "t"))))))
+                        if zk["proof_C_Ctrusted"]: chal.append(("c(trusted)", clj.get(zk["proof_C_Ctrusted"], ("challenge",))))
+                        secrets = [("m_%d" % i, msgs[i]) for i in U] + [("r", f["C"][1])] + ([("r_trusted", f["Ct"][1])] if f["Ct"] else [])
+                        secrets += [("randomness_%d" % k, v) for k, (kd, prm, v) in enumerate(f["zk_draws"]) if kd == "bits" and prm == [ln]]
+                        q_, r_ = masking_attack(S, f["zk"], chal, secrets, "zkpok"); stats["quotients"] += q_; stats["responses"] += r_; stats["proofs"] += 1
+                    r = S.run([spokgen_line(x, sig, msgs, U)], expect="ok", label="triv:proof_gen")[0]
+                    if r.status == "OK":
+                        doc = r.json(0); dr = parse_draws(r); sp = doc["CL03"]["spok"]
+                        chal = [("c(spok)", clj.get(sp, ("challenge",)))]
+                        for k, pv in enumerate(doc["CL03"]["proofs_commited_mi"]):
+                            chal.append(("c(m_%d)" % U[k], sha_int(str(x.cpk[2 + U[k]]) + str(x.cpk[1]) + str(clj.get(pv, ("commitment", "value"))) + str(clj.get(pv, ("value", "t"))))))
+                        secrets = [("m_%d" % i, msgs[i]) for i in U] + [("e", sig[0]), ("s", sig[1]), ("v", sig[2])]
+                        secrets += [("randomness_%d" % k, v) for k, (kd, prm, v) in enumerate(dr) if kd == "bits" and prm == [ln]]
+                        q_, r_ = masking_attack(S, doc, chal, secrets, "spok"); stats["quotients"] += q_; stats["responses"] += r_; stats["proofs"] += 1
+        return stats
